@@ -226,6 +226,7 @@ impl View {
                 }
             }
             PatchAction::Increment { prop, value } => {
+                let on_text = matches!(self.objs.get(&k), Some(VNode::Text(_)));
                 let slot: Option<&mut Slot> = match (self.objs.get_mut(&k), prop) {
                     (Some(VNode::Map(m)), Prop::Map(key)) => m.get_mut(key),
                     (Some(VNode::List(l)), Prop::Seq(i)) => l.get_mut(*i),
@@ -241,10 +242,16 @@ impl View {
                         Ok(())
                     }
                     Some(other) => Err(format!("Increment of {prop} in {k} aimed at a non-counter: {:?}", other.val)),
+                    // a counter inside a text is a placeholder character to the view (see the comparison): nothing to add to
+                    None if on_text => Ok(()),
                     None => Err(format!("Increment of missing {prop} in {k}")),
                 }
             }
             PatchAction::Conflict { prop } => {
+                // a text view holds a string, marks and embedded objects; it has no per-element conflict flag to set
+                if let (Some(VNode::Text(_)), Prop::Seq(_)) = (self.objs.get(&k), prop) {
+                    return Ok(());
+                }
                 let slot: Option<&mut Slot> = match (self.objs.get_mut(&k), prop) {
                     (Some(VNode::Map(m)), Prop::Map(key)) => m.get_mut(key),
                     (Some(VNode::List(l)), Prop::Seq(i)) => l.get_mut(*i),
@@ -424,10 +431,18 @@ pub fn view_diff(want: &View, got: &View) -> Option<String> {
                     match (&p.embedded, &y[i].embedded) {
                         (None, None) => {}
                         (Some(a), Some(b)) => {
-                            if let Some(d) = slot(a, b, format!("{path}/e{i}")) {
+                            // no patch can set or clear a conflict flag on a text position (Conflict patches on text carry
+                            // nothing a text view could store): compare the embedded values, not the flags
+                            let mut a = a.clone();
+                            a.conflict = b.conflict;
+                            if let Some(d) = slot(&a, b, format!("{path}/e{i}")) {
                                 return Some(d);
                             }
                         }
+                        // a scalar that is not a string (put(text, i, 3)) reaches a patch consumer as the placeholder character
+                        // U+FFFC in a SpliceText patch - that is how text renders it, and the strings were compared above; only an
+                        // embedded *object* (block marker) has an identity the view must hold
+                        (Some(Slot { val: VVal::Scalar(_), .. }), None) | (None, Some(Slot { val: VVal::Scalar(_), .. })) => {}
                         _ => return Some(format!("{path}: embedded value at unit {i} on one side only")),
                     }
                 }
